@@ -462,9 +462,10 @@ struct AdfList * adfGetRDirEnt ( struct AdfVolume * const vol,
                                  const SECTNUM            nSect,
                                  const BOOL               recurs )
 {
-    /* a volume cannot hold more entries than blocks: the budget stops the
-       walk on cyclic hash chains and on directories that contain themselves */
-    int32_t budget = vol->lastBlock - vol->firstBlock + 1;
+    /* a volume cannot hold more entries than blocks: the budget (one step per
+       entry listed and one per directory entered) stops the walk on cyclic hash
+       chains and on directories that contain themselves */
+    int32_t budget = 2 * ( vol->lastBlock - vol->firstBlock + 1 );
     return adfGetRDirEntBudget_ ( vol, nSect, recurs, &budget );
 }
 
@@ -498,6 +499,11 @@ static struct AdfList * adfGetRDirEntBudget_ ( struct AdfVolume * const vol,
     cell = head = NULL;
     for(i=0; i<HT_SIZE; i++) {
         if (hashTable[i]!=0) {
+             if ( --(*budget) < 0 ) {
+                 (*adfEnv.wFct)("adfGetRDirEnt : more entries than blocks (cycle?)");
+                 adfFreeDirList(head);
+                 return NULL;
+             }
              entry = ( struct AdfEntry * ) malloc ( sizeof ( struct AdfEntry ) );
              if (!entry) {
                  adfFreeDirList(head);
